@@ -85,6 +85,10 @@ def _gen_script(tp: Tape, retries: int, fail_w: int, straggle_w: int):
 
 def generate(tp: Tape, tier: str):
     kind = "sched"
+    if tp.coin(1, 40):
+        from checks import c08_e2e
+
+        return c08_e2e.generate(tp, tier)
     if tier == "quick" and tp.coin(1, 12):
         return _generate_tiny(tp)
     n = tp.weighted([(0, 1), (1, 1), (2, 1), (3, 1), (tp.randint(4, 9), 3), (tp.randint(10, 14), 6),
